@@ -94,6 +94,8 @@ def campaign(c):
             elif kind == 2: e = 'f.server_message("|%s|")' % r.bytes(1 + r.below(60)).hex()
             else: e = 'u.client_dgram("|%s|")' % r.bytes(r.below(90)).hex()
             L.append('let s%d = %s;' % (k, e)); names.append('s%d' % k)
+        for k in range(r.below(3)):      # a stored value bound to a second (third) name: every name still emits it
+            L.append('let al%d = %s;' % (k, r.choice(names))); names.append('al%d' % k)
         for _ in range(1 + r.below(6)): L.append(r.choice(names) + ';')
         if r.chance(1, 2): L.append('f.client_close();')
         for _ in range(r.below(3)): L.append(r.choice(names) + ';')
